@@ -23,6 +23,11 @@ SCALE_OPS = ('scale', 'rscale', 'div', 'iscale', 'iscale_prefactor')
 # comparison of two observations
 # ------------------------------------------------------------------------------------------------
 
+def cplx_flat(v):
+    """value list of a block / scalar as (re, im) pairs (real data: im = 0)"""
+    return [[x[0], x[1]] if isinstance(x, list) else [x, 0.0] for x in v]
+
+
 def num_same(x, y, tol):
     if isinstance(x, list) and isinstance(y, list):
         return len(x) == len(y) and all(num_same(a, b, tol) for a, b in zip(x, y))
@@ -47,7 +52,7 @@ def obs_diff(a, b, path=''):
                     elif [x[1] for x in ba] != [x[1] for x in bb]:
                         out.append(path + '/block-shapes')
                     else:
-                        if not all(num_same(x[2], y[2], tol) for x, y in zip(ba, bb)):
+                        if not all(num_same(cplx_flat(x[2]), cplx_flat(y[2]), tol) for x, y in zip(ba, bb)):
                             out.append(path + '/block-values')
                         if [x[3] for x in ba] != [x[3] for x in bb]:
                             out.append(path + '/block-dtypes')
@@ -62,7 +67,7 @@ def obs_diff(a, b, path=''):
             tol = TOL32 if any(s in (a['dtype'], b['dtype']) for s in ('float32', 'complex64')) else TOL64
             if a['dtype'] != b['dtype']:
                 out.append(path + '/dtype')
-            if a['shape'] != b['shape'] or not num_same(a['v'], b['v'], tol):
+            if a['shape'] != b['shape'] or not num_same(cplx_flat(a['v']), cplx_flat(b['v']), tol):
                 out.append(path + '/value')
             return out
         out = []
@@ -87,6 +92,9 @@ def obs_diff(a, b, path=''):
 def step_diff(p, y):
     """differences between the records of one step in the two configurations"""
     out = []
+    if p.get('res') == y.get('res') and p.get('recv') == y.get('recv') and p.get('error') == y.get('error') \
+            and p.get('skipped') == y.get('skipped') and 'crash' not in p and 'crash' not in y:
+        return out
     if ('crash' in p) != ('crash' in y):
         return ['crash']
     if p.get('error') != y.get('error'):
@@ -115,14 +123,16 @@ def classify(st, p, y, diffs):
     if only_dtype and op in ADD_OPS + SCALE_OPS and ((A and A['nblocks'] == 0) or (B and B['nblocks'] == 0)):
         return 'C04:py:dtype-not-promoted:operand-without-blocks'
     if only_dtype and op in ('inner', 'w_inner', 'tensordot') and A and B and \
-            not ({A['dtype'], B['dtype']} <= {'float64', 'complex128'}) and p.get('res', {}).get('k') == 'scalar':
-        return 'C04:inner:scalar-dtype:operands-not-64bit-float'
+            A['dtype'] == 'int64' and B['dtype'] == 'int64' and p.get('res', {}).get('k') == 'scalar':
+        return 'C04:inner:scalar-dtype:integer-operands'
+    if op == 'w_tensordot' and diffs == ['res/items[3]/dtype'] and A and B and A['dtype'] == 'int64' and B['dtype'] == 'int64':
+        return 'C04:inner:scalar-dtype:integer-operands'
     if op == 'iadd_prefactor_other' and st['a'] == st['b'] and isinstance(st.get('s'), list):
         return 'C04:iadd_prefactor_other:self-aliased-operand:complex-prefactor'
     if zero_size and 'crash' in diffs:
         return 'C04:zero-size-leg-block:interpreter-crash'
-    if zero_size and diffs == ['error-class'] or (zero_size and 'error-class' in diffs):
-        return 'C04:zero-size-leg-block:error-class'
+    if zero_size and 'error-class' in diffs and (('error' in p) != ('error' in y)):
+        return 'C04:zero-size-leg-block:raises-in-one-configuration'
     return 'C04:%s:%s' % (op, ','.join(sorted(set(d.split('/')[-1].split('[')[0] for d in diffs)))[:60])
 
 
@@ -150,31 +160,41 @@ def blame(p, y):
 # ------------------------------------------------------------------------------------------------
 
 def run_both(ctx, kind, cases, nchunks=None):
-    """returns ({'py': [...], 'cy': [...]}, infos) or None after recording a correspondence failure"""
-    n = nchunks or min(common.NPROC, max(1, len(cases) // 8))
-    out, infos = {}, {}
-    for cfg in ('py', 'cy'):
-        chunks = [cases[i::n] for i in range(n)]
-        res = common.run_impl_parallel('c04_impl.py', [{'kind': kind, 'cases': ch} for ch in chunks if ch], config=cfg,
-                                       maxpar=max(2, common.NPROC // 2))
-        full = [None] * len(cases)
-        for i, (r, err) in enumerate(res):
-            if err:
-                ctx.fail('correspondence', '%s runner failed in configuration %s: %s' % (kind, cfg, err[-600:]), None)
-                return None, None
-            info = r['info']
-            want = (cfg == 'cy')
-            if info.get('have_cython') != want:
-                ctx.fail('correspondence', 'configuration %s runs with have_cython_functions=%r (the extension rebuilt from the '
-                         'current .pyx did not load / was not disabled)' % (cfg, info.get('have_cython')), {'info': info})
-                return None, None
-            if not os.path.realpath(info.get('npc_file', '')).startswith(os.path.realpath(common.REPO)):
-                ctx.fail('correspondence', 'configuration %s imported tenpy from %s, not from %s' % (cfg, info.get('npc_file'), common.REPO), None)
-                return None, None
-            infos[cfg] = info
-            for j, x in enumerate(r['results']):
-                full[i + n * j] = x
-        out[cfg] = full
+    """one kind of case; see run_mixed"""
+    out, infos = run_mixed(ctx, [(kind, c) for c in cases], nchunks)
+    return out, infos
+
+
+def run_mixed(ctx, items, nchunks=None):
+    """items: [(kind, case)].  Runs every item in BOTH configurations (few, large batches: starting an
+    interpreter and importing tenpy dominates on a busy machine; the two configurations run concurrently).
+    returns ({'py': [...], 'cy': [...]}, infos) or (None, None) after recording a correspondence failure"""
+    from concurrent.futures import ThreadPoolExecutor
+    n = nchunks or max(1, min(6, len(items) // 40))
+    common.cy_build()      # in the main thread: the overlay creation of common.cy_build is not thread-safe
+    chunks = [items[i::n] for i in range(n)]
+    jobs = [(cfg, i) for i in range(n) for cfg in ('py', 'cy') if chunks[i]]
+    with ThreadPoolExecutor(max_workers=len(jobs)) as ex:
+        futs = [ex.submit(common.run_impl, 'c04_impl.py', {'kind': 'mixed', 'cases': [list(x) for x in chunks[i]]}, cfg)
+                for cfg, i in jobs]
+        res = [f.result() for f in futs]
+    out = {'py': [None] * len(items), 'cy': [None] * len(items)}
+    infos = {}
+    for (cfg, i), (r, err) in zip(jobs, res):
+        if err:
+            ctx.fail('correspondence', 'runner failed in configuration %s: %s' % (cfg, err[-600:]), None)
+            return None, None
+        info = r['info']
+        if info.get('have_cython') != (cfg == 'cy'):
+            ctx.fail('correspondence', 'configuration %s runs with have_cython_functions=%r (the extension rebuilt from the '
+                     'current .pyx did not load / was not disabled)' % (cfg, info.get('have_cython')), {'info': info})
+            return None, None
+        if not os.path.realpath(info.get('npc_file', '')).startswith(os.path.realpath(common.REPO)):
+            ctx.fail('correspondence', 'configuration %s imported tenpy from %s, not from %s' % (cfg, info.get('npc_file'), common.REPO), None)
+            return None, None
+        infos[cfg] = info
+        for j, x in enumerate(r['results']):
+            out[cfg][i + n * j] = x
     return out, infos
 
 
@@ -206,7 +226,7 @@ def compare_programs(ctx, stream, cases, out):
                 first = (si, st, a, b, d)
                 break
         if first is None and len(p['steps']) == len(y['steps']):
-            fd = obs_diff(p['final'], y['final'], 'final')
+            fd = [] if p['final'] == y['final'] else obs_diff(p['final'], y['final'], 'final')
             if fd:
                 ctx.fail('oracle', 'operands left in different states by the two configurations: %s' % fd[:6],
                          {'stream': stream, 'case': c, 'py_final': p['final'], 'cy_final': y['final']},
@@ -219,7 +239,7 @@ def compare_programs(ctx, stream, cases, out):
             si, st, a, b, d = first
             nd += 1
             key = classify(st, a, b, d)
-            ctx.fail('oracle', 'step %d (%s) differs between the configurations in %s; %s' % (si, st['op'], d[:6], blame(a, b)),
+            ctx.fail('oracle', 'step %d (%s) differs between the configurations in %s; %s [%s]' % (si, st['op'], d[:6], blame(a, b), key),
                      {'stream': stream, 'case': {'mods': c['mods'], 'pool': c['pool'], 'steps': c['steps'][:si + 1]},
                       'step': si, 'py': a, 'cy': b, 'how': 'harness/impl/c04_impl.py kind=programs in both configurations'},
                      match_key=key)
@@ -256,7 +276,7 @@ def gen_kernel_cases(rng, n):
                     rows[i][j] = rng.choice([-1, mods[j], mods[j] - 1, 0])                       # boundary values
             cases.append({'f': f, 'mods': mods, 'charges': rows[0] if one_d else rows,
                           'shape': [len(mods)] if one_d else [len(rows), len(mods)],
-                          'as': rng.choice(['array', 'array', 'list']) if (rows and mods) or True else 'array', 'rows': rows})
+                          'as': rng.choice(['array', 'array', 'list']) if (rows and mods) else 'array', 'rows': rows})
         elif r < 0.55:
             M = rng.choice([0, 1, 1, 2, 3])
             L = rng.choice([0, 1, 2, 3, 5, 8, 12])
@@ -335,42 +355,65 @@ def coq_kernel_case(c, out):
 
 def main(ctx):
     rng = ctx.rng
+    import time
+    tm = ctx.cov.setdefault('timings_s', {})
+    t0 = time.time()
+
+    def mark(name):
+        nonlocal t0
+        tm[name] = round(time.time() - t0, 1)
+        t0 = time.time()
     ctx.proof = common.check_proofs('C04')
+    mark('proofs')
     mult = 3 if not ctx.proof.ok else 1
-    common.cy_build()      # in the main thread: the overlay creation of common.cy_build is not thread-safe
-    nprog = ctx.pick(420, 4000) * mult
+    nprog = ctx.pick(500, 4000) * mult
     # ---- corpus first
     corpus = [c['case'] for c in common.corpus_cases('C04') if c.get('stream') == 'programs']
-    # ---- stream 1: random programs, public API + direct worker calls
+    # stream 1: random programs, public API + direct worker calls
     cases = corpus + [c04_gen.gen_program(rng, empty_blocks=False) for _ in range(nprog)]
-    out, infos = run_both(ctx, 'programs', cases)
-    if out is None:
-        return ctx.finish(RULE)
-    ctx.cov['configurations'] = infos
-    ndiff = compare_programs(ctx, 'programs', cases, out)
-    # ---- stream 2: sums of tensors with the same labels in a different order
-    f5 = [c04_gen.gen_f5_like(rng) for _ in range(ctx.pick(40, 400))]
-    out2, _ = run_both(ctx, 'programs', f5, nchunks=4)
-    if out2 is not None:
-        ndiff += compare_programs(ctx, 'permuted-label-sums', f5, out2)
-    # ---- stream 3: legs with zero-size blocks
+    # stream 2: sums of tensors with the same labels in a different order
+    f5 = [c04_gen.gen_f5_like(rng) for _ in range(ctx.pick(50, 400))] + [c04_gen.gen_self_alias(rng) for _ in range(ctx.pick(10, 80))]
+    # stream 3: legs with zero-size blocks
     zs = []
-    while len(zs) < ctx.pick(60, 600):
+    while len(zs) < ctx.pick(60, 500):
         c = c04_gen.gen_program(rng, empty_blocks=True)
         if any(0 in l['sizes'] for l in c['pool']):
             zs.append(c)
-    out3, _ = run_both(ctx, 'programs', zs, nchunks=4)
-    if out3 is not None:
-        ndiff += compare_programs(ctx, 'zero-size-blocks', zs, out3)
-    # if something differs, intensify: ten times more programs of the same kind
+    # stream 4: helper functions called directly
+    kcases = gen_kernel_cases(rng, ctx.pick(2500, 20000) * mult) + gen_pipe_cases(rng, ctx.pick(250, 2000))
+    # stream 5: tiny algorithm runs
+    algos = [{'kind': 'dmrg', 'model': 'xxz', 'L': 4, 'Jz': 1.0}, {'kind': 'dmrg', 'model': 'tfi', 'L': 4, 'g': 0.7, 'mixer': True},
+             {'kind': 'tebd', 'model': 'xxz', 'L': 4, 'Jz': 0.5, 'steps': 4, 'order': 2},
+             {'kind': 'tebd', 'model': 'tfi', 'L': 5, 'g': 1.3, 'steps': 3, 'order': 4, 'conserve': None}]
+    if ctx.thorough():
+        algos += [{'kind': 'dmrg', 'model': 'xxz', 'L': 6, 'Jz': 0.3, 'hz': 0.1, 'mixer': True},
+                  {'kind': 'dmrg', 'model': 'xxz', 'L': 5, 'Jz': 2.0, 'conserve': 'parity'},
+                  {'kind': 'tebd', 'model': 'xxz', 'L': 6, 'Jz': 1.5, 'steps': 6, 'order': 4, 'conserve': None}]
+    items = [('algos', c) for c in algos] + [('programs', c) for c in cases + f5 + zs] + [('kernels', c) for c in kcases]
+    allout, infos = run_mixed(ctx, items, nchunks=ctx.pick(6, 12))
+    mark('both-configurations')
+    if allout is None:
+        return ctx.finish(RULE)
+    ctx.cov['configurations'] = infos
+
+    def part(lo, n):
+        return {cfg: allout[cfg][lo:lo + n] for cfg in ('py', 'cy')}
+    o = len(algos)
+    outa = part(0, o)
+    ndiff = compare_programs(ctx, 'programs', cases, part(o, len(cases)))
+    o += len(cases)
+    ndiff += compare_programs(ctx, 'permuted-label-sums', f5, part(o, len(f5)))
+    o += len(f5)
+    ndiff += compare_programs(ctx, 'zero-size-blocks', zs, part(o, len(zs)))
+    o += len(zs)
+    outk = part(o, len(kcases))
+    # if something unexplained differs, intensify: as many programs again
     if ctx.violations and not ctx.thorough():
         more = [c04_gen.gen_program(rng, empty_blocks=False) for _ in range(nprog)]
         outm, _ = run_both(ctx, 'programs', more)
         if outm is not None:
             compare_programs(ctx, 'programs', more, outm)
-    # ---- stream 4: helper functions called directly
-    kcases = gen_kernel_cases(rng, ctx.pick(1500, 15000) * mult) + gen_pipe_cases(rng, ctx.pick(150, 1500))
-    outk, _ = run_both(ctx, 'kernels', kcases)
+    mark('compare-programs')
     coq_cases = {'py': [], 'cy': []}
     coq_idx = {'py': [], 'cy': []}
     if outk is not None:
@@ -385,7 +428,7 @@ def main(ctx):
                              {'stream': 'kernels', 'case': c}, match_key='C04:%s:raises-in-one-configuration' % f)
                 ctx.count('kernels', c, nontrivial=False)
                 continue
-            d = obs_diff(p, y, f)
+            d = [] if p == y else obs_diff(p, y, f)
             nontriv = True
             ctx.count('kernels:' + f, c, nontrivial=nontriv, sample=c if f != 'pipe' else None)
             if d:
@@ -394,7 +437,7 @@ def main(ctx):
                     key = 'C04:_find_row_differences:zero-rows'
                 if f == 'make_valid' and d == ['make_valid/arg_unchanged']:
                     key = 'C04:make_valid:py-mutates-int64-array-argument'
-                ctx.fail('oracle', 'helper %s differs between the configurations in %s: py %s, cy %s' % (f, d[:4], str(p)[:200], str(y)[:200]),
+                ctx.fail('oracle', 'helper %s differs between the configurations in %s: py %s, cy %s [%s]' % (f, d[:4], str(p)[:200], str(y)[:200], key),
                          {'stream': 'kernels', 'case': c, 'py': p, 'cy': y}, match_key=key)
             if f == 'sliced_copy' and not (p.get('ok') and y.get('ok') and p.get('src_unchanged') and y.get('src_unchanged')):
                 ctx.fail('oracle', '_sliced_copy differs from plain numpy slicing (py ok=%s, cy ok=%s)' % (p.get('ok'), y.get('ok')),
@@ -421,16 +464,8 @@ def main(ctx):
                 ctx.fail('correspondence', 'Model/KernelsPyCy.v (%s_%s) and the %s configuration disagree' % (kcases[i]['f'], cfg, cfg),
                          {'stream': 'kernels', 'case': kcases[i], 'impl': outk[cfg][i]}, match_key=k)
             ctx.cov['traces_validated_against_impl_' + cfg] = len(coq_cases[cfg])
+            mark('coq-model-' + cfg)
         ctx.cov['traces_validated_against_impl'] = len(coq_cases['py']) + len(coq_cases['cy'])
-    # ---- stream 5: tiny algorithm runs
-    algos = [{'kind': 'dmrg', 'model': 'xxz', 'L': 4, 'Jz': 1.0}, {'kind': 'dmrg', 'model': 'tfi', 'L': 4, 'g': 0.7, 'mixer': True},
-             {'kind': 'tebd', 'model': 'xxz', 'L': 4, 'Jz': 0.5, 'steps': 4, 'order': 2},
-             {'kind': 'tebd', 'model': 'tfi', 'L': 5, 'g': 1.3, 'steps': 3, 'order': 4, 'conserve': None}]
-    if ctx.thorough():
-        algos += [{'kind': 'dmrg', 'model': 'xxz', 'L': 6, 'Jz': 0.3, 'hz': 0.1, 'mixer': True},
-                  {'kind': 'dmrg', 'model': 'xxz', 'L': 5, 'Jz': 2.0, 'conserve': 'parity'},
-                  {'kind': 'tebd', 'model': 'xxz', 'L': 6, 'Jz': 1.5, 'steps': 6, 'order': 4, 'conserve': None}]
-    outa, _ = run_both(ctx, 'algos', algos, nchunks=len(algos))
     if outa is not None:
         for c, p, y in zip(algos, outa['py'], outa['cy']):
             ctx.count('algorithms', c, nontrivial=True, sample={'case': c, 'E_py': p.get('E'), 'E_cy': y.get('E')})
